@@ -312,6 +312,8 @@ VARIANTS = [
     V('c03-index-recomputed-ok', 'C03', 'ok', None, G, "            tlist.group_tokens(cls, open_idx, close_idx)\n            tidx_offset += close_idx - open_idx\n", "            tlist.group_tokens(cls, open_idx, close_idx)\n            tidx_offset += close_idx - open_idx\n            tidx = idx - tidx_offset\n"),
     V('c01-recursive-helper', 'C01', 'bad', 'R1.13', L, ("class Lexer:\n", "        iterable = enumerate(text)\n"), ("def _skip_blanks(text, pos):\n    return _skip_blanks(text, pos + 1) if text[pos:pos + 1] == ' ' else pos\n\n\nclass Lexer:\n", "        _skip_blanks(text, 0)\n        iterable = enumerate(text)\n"), 'a run of blanks as long as the recursion limit'),
     V('c11-splitter-counts-blanks', 'C11', 'bad', 'R11.11', SP, ("        self._begin_depth = 0\n", "            self.level += self._change_splitlevel(ttype, value)\n", "        if ttype is T.Keyword.DDL and unified.startswith('CREATE'):"), ("        self._begin_depth = 0\n        self._blanks = 0\n", "            if value == ' ':\n                self._blanks += 1\n            self.level += self._change_splitlevel(ttype, value)\n", "        if unified == 'IF' and self._blanks and self._is_create and self._begin_depth > 0:\n            return 0\n        if ttype is T.Keyword.DDL and unified.startswith('CREATE'):"), 'state kept in process distinguishes a blank from a line break'),
+    V('c05-split-at-quoted-semicolon', 'C05', 'bad', 'R5.10', SP, "            if (self.level <= 0 and ttype is T.Punctuation and value == ';') \\", "            if (self.level <= 0 and value.strip('\"') == ';') \\", 'a quoted name that is a semicolon ends the statement'),
+    V('c05-last-statement-dropped-if-comment', 'C05', 'ok', None, SP, "        if self.tokens and not all(t.is_whitespace for t in self.tokens):", "        if self.tokens and any(not t.is_whitespace for t in self.tokens):"),
 ]
 
 WHOLE_FILE = {
